@@ -125,6 +125,7 @@ def run(tier, seed, out, drv, facts):
     composite_leaf_cases(out, drv, facts, rng)
     overwrite_then_reject_cases(out, drv, facts, rng)
     pep604_cases(out)
+    union_history_cases(out, drv, facts, rng)
     bare_pytree_cases(out)
     after_fault_cases(out)
 
@@ -178,6 +179,54 @@ def overwrite_then_reject_cases(out, drv, facts, rng):
                     if mid and progcheck.last_bindings(gb) != mid[0]["m"]:
                         out.violation("reject-binds:overwrite", f"a rejected tree changed the bindings from {progcheck.last_bindings(gb)} to {mid[0]['m']} "
                                       f"(a broadcastable multi-axis binding updated by an early leaf was not put back)", {"program": prog})
+
+
+def union_history_cases(out, drv, facts, rng):
+    """a union leaf type whose members can accept the same array under different axis names: which member a leaf matches
+    (hence what it binds, hence the verdict) is decided by the declared order of the members and the context — not by which
+    member happened to match in an earlier, unrelated check of the SAME annotation objects (aliases defined once)"""
+    import typing
+
+    from impl import Duck
+    from jaxtyping import Float, PyTree, jaxtyped
+
+    A_, B_, N_, ANY_ = Float[Duck, "a"], Float[Duck, "b"], Float[Duck, "n"], Float[Duck, "..."]
+    PU, PW = PyTree[typing.Union[A_, B_]], PyTree[typing.Union[N_, ANY_]]
+    d = lambda *sh: Duck(tuple(sh), "float32")  # noqa: E731
+
+    def probe1():
+        with jaxtyped("context"):
+            isinstance(d(3), B_)
+            return isinstance([d(3), d(4)], PU)          # leaf 0 binds a=3 through the first member; 4 is neither a nor b
+
+    def probe2():
+        with jaxtyped("context"):
+            r = isinstance([d(3)], PW)                   # first member: binds n=3
+            return (r, isinstance(d(5), N_))
+
+    def probe3():
+        with jaxtyped("context"):
+            return isinstance((d(2), d(2), d(7)), PU)    # a=2, a=2, then 7: not a, binds b=7
+
+    def primers():
+        with jaxtyped("context"):
+            isinstance(d(5), A_)
+            isinstance([d(4)], PU)                       # matched by the SECOND member
+        with jaxtyped("context"):
+            isinstance(d(5), N_)
+            isinstance([d(9, 9)], PW)                    # matched by the second member
+        with jaxtyped("context"):
+            isinstance(d(1), A_)
+            isinstance({"k": d(6)}, PU)
+
+    want = [False, (True, False), True]
+    for rnd, label in enumerate(("fresh", "after unrelated checks of the same annotations")):
+        got = [probe1(), probe2(), probe3()]
+        out.case(("union-history", rnd), True, sample={"round": label, "verdicts": repr(got)})
+        if got != want:
+            out.violation(f"union-history:{rnd}", f"{label}: the three probes give {got}, the declared order of the union members and the context require {want}", {"union_history": rnd})
+            return
+        primers()
 
 
 def pep604_cases(out):
@@ -366,6 +415,9 @@ def replay(rep, out, drv, facts):
         return
     if "arraylike_node" in rep:
         arraylike_node_cases(out)
+        return
+    if "union_history" in rep:
+        union_history_cases(out, drv, facts, Rng(0, "replay"))
         return
     if "pep604" in rep:
         pep604_cases(out)
